@@ -38,9 +38,17 @@ CheckLim(e) == (IF e.admitted # e.max THEN <<[prop |-> "C09", clause |-> IF e.ad
 \* a client keeps, under concurrent traffic of other clients, the backend it gets when served alone
 CheckAffConc(e) == IF e.seen # <<e.solo>> THEN <<[prop |-> "C06", clause |-> "Affinity_concurrent"]>> ELSE <<>>
 
+\* C13 under real parallelism: totals are exactly what was sent, per backend exactly what it served, gauges zero
+CheckMetConc(e) ==
+  (IF e.total # e.sent THEN <<[prop |-> "C13", clause |-> "TotalCount_concurrent"]>> ELSE <<>>)
+  \o (IF e.ok + e.failed + e.limited # e.sent THEN <<[prop |-> "C13", clause |-> "Partition_concurrent"]>> ELSE <<>>)
+  \o (IF \E i \in DOMAIN e.served : e.btotal[i] # e.served[i] THEN <<[prop |-> "C13", clause |-> "BackendTotals_concurrent"]>> ELSE <<>>)
+  \o (IF \E i \in DOMAIN e.bactive : e.bactive[i] # 0 THEN <<[prop |-> "C13", clause |-> "Gauge_concurrent"]>> ELSE <<>>)
+
 Check(e) == CASE e.kind = "wrr" -> CheckWrr(e) [] e.kind = "rrcount" -> CheckRr(e) [] e.kind = "jump" -> CheckJump(e)
               [] e.kind = "jumpsummary" -> CheckJumpSummary(e) [] e.kind = "addr" -> CheckAddr(e) [] e.kind = "limconc" -> CheckLim(e)
               [] e.kind = "affconc" -> CheckAffConc(e)
+              [] e.kind = "metconc" -> CheckMetConc(e)
               [] OTHER -> <<>>
 Init == l = 1 /\ viol = <<>>
 Next == /\ l <= Len(Tr) /\ l' = l + 1 /\ viol' = Check(Tr[l])
